@@ -1652,10 +1652,15 @@ class Extractor:
             saved = dict(sc.consts)
             main = self.block(sc, list(s.body) + list(s.orelse) + list(s.finalbody) + list(rest), k, in_loop)
             after = dict(sc.consts)
+            # round 5 (cf. Props C15_frame_try): the handler may also run after any PREFIX of the protected statements - whatever they
+            # bound or wrote is then in place (statement granularity; at most 8 protected statements, otherwise entry and end only;
+            # thorough tier only - in the quick tier the handler runs from the state at the entry of the try)
+            cuts = (list(range(len(s.body) + 1)) if len(s.body) <= 8 else [0, len(s.body)]) if getattr(self, "try_prefixes", False) else [0]
             for hd in s.handlers:
-                sc.consts = dict(saved)
-                alt = self.block(sc, list(hd.body) + list(s.finalbody) + list(rest), k, in_loop)
-                main = main if alt == SKIP and False else ("choice", main, alt)
+                for cut in cuts:
+                    sc.consts = dict(saved)
+                    alt = self.block(sc, list(s.body[:cut]) + list(hd.body) + list(s.finalbody) + list(rest), k, in_loop)
+                    main = ("choice", main, alt)
             sc.consts = {n: v for n, v in after.items() if n in saved and saved[n] == v}
             return main
         node = self.stmt(sc, s)
@@ -2107,7 +2112,7 @@ INLINE = {"initialize_cp", "error_calc", "sparsify_tensor", "cp_normalize", "ini
           "cp_flip_sign", "parafac2_to_slice", "admm", "tucker_normalize", "_compute_projections", "_project_tensors", "cp_mode_dot", "tucker_mode_dot"}
 
 
-STATIC_CAP = 20000        # paths per extracted skeleton evaluated inside Coq; larger ones are retried with one sweep, then skipped and counted
+STATIC_CAP = 40000        # paths per extracted skeleton evaluated inside Coq; larger ones are retried with one sweep, then skipped and counted
 F_, T_ = "false", "true"
 HAND_WRITTEN = {    # (function, in-place parameters, option-set index) -> (hand-written skeleton of Corr.C15, its flags)
     ("parafac", (), 0): ("(KParafacN 3%nat 2%nat 2%nat (Some 1%nat) [0%nat; 1%nat; 2%nat])", [F_] * 4),
@@ -2136,6 +2141,7 @@ def static_cases(repo, cap=STATIC_CAP):
     sys.setrecursionlimit(100000)
     ex = Extractor(repo); ex.inline = INLINE
     ex1 = Extractor(repo, repeat=1); ex1.inline = INLINE
+    ex.try_prefixes = ex1.try_prefixes = cap > 6000
     defs, cases, names, skipped = [], [], [], []
     todo = [(n, i, k, c, True) for n, i, cs in ENTRIES for k, c in enumerate(cs)] + [(n, i, 0, c, False) for n, i, c in NEGATIVE]
     for name, inpl, ci, cfg, expected in todo:
@@ -2398,6 +2404,9 @@ def plan(tier, rng):
     return cases
 
 
+EXHAUSTIVE_INTERRUPTS = 30      # thorough tier: configurations with at most this many internal calls are interrupted at every one of them
+
+
 def plan_interrupts(tier, rng):
     """exception paths: every table configuration once more (quick) / twice more (thorough: once per dtype), made to raise at a
     random one of its internal function calls (counted during the uninterrupted "fresh" run of the first pass)"""
@@ -2407,6 +2416,10 @@ def plan_interrupts(tier, rng):
         if total <= 0 or name.startswith("fuzz:"):
             continue
         if name in HEAVY and tier == "quick":
+            continue
+        if tier != "quick" and total <= EXHAUSTIVE_INTERRUPTS and dtype == "float64":
+            for k in range(1, total + 1):       # short calls: EVERY interruption point
+                out.append((name, f"{rng.choice(ALL_VARIANTS)}!{k}", dtype, seed))
             continue
         for _ in range(per):
             k = rng.randint(1, min(total, 25)) if rng.random() < 0.3 else rng.randint(1, total)
